@@ -547,6 +547,150 @@ def build(arg):
     return T
 """
 
+# std.OpenEntity / std.ConnectedEntity with several ports left open (signals for unconnected ports)
+MODULES["connector"] = HEADER + """
+class Inner(Entity):
+    i0 = Port.input(Bit)
+    i1 = Port.input(Bit)
+    zeta = Port.output(Bit)
+    alpha = Port.output(Bit)
+    mid = Port.output(Bit)
+    beta = Port.output(Bit)
+
+    def architecture(self):
+        @std.concurrent
+        def logic():
+            self.zeta <<= self.i0 & self.i1
+            self.alpha <<= self.i0 | self.i1
+            self.mid <<= self.i0 ^ self.i1
+            self.beta <<= ~self.i0
+
+class T(Entity):
+    a = Port.input(Bit)
+    b = Port.input(Bit)
+    o0 = Port.output(Bit)
+    o1 = Port.output(Bit)
+    o2 = Port.output(Bit)
+
+    def architecture(self):
+        @std.concurrent
+        def logic():
+            op = std.OpenEntity[Inner](i0=self.a, i1=self.b)
+            self.o0 <<= op.mid
+            con = std.ConnectedEntity[Inner]()
+            con.i0 <<= self.a
+            con.i1 <<= self.b
+            self.o1 <<= con.zeta ^ con.alpha
+            self.o2 <<= con.beta & con.mid
+
+def build(arg):
+    return T
+"""
+
+# a module-level attributes dict given to std.SequentialContext, shared by two designs; one process is declared
+# with @ctx(attributes={...}) (must not modify the shared dict), the others with plain @ctx
+MODULES["seqattrs"] = HEADER + """
+ATTRS = {"zzz_user": 1}
+
+class A(Entity):
+    clk = Port.input(Bit)
+    a = Port.input(Bit)
+    o = Port.output(Bit, default=False)
+    p = Port.output(Bit, default=False)
+
+    def architecture(self):
+        ctx = std.SequentialContext(std.Clock(self.clk), attributes=ATTRS)
+
+        @ctx(attributes={"comment": "process with its own attributes"})
+        def proc_a():
+            self.o <<= self.a
+
+        @ctx
+        def proc_b():
+            self.p <<= ~self.a
+
+class B(Entity):
+    clk = Port.input(Bit)
+    a = Port.input(Bit)
+    q = Port.output(Bit, default=False)
+
+    def architecture(self):
+        ctx = std.SequentialContext(std.Clock(self.clk), attributes=ATTRS)
+
+        @ctx
+        def proc_c():
+            self.q <<= self.a
+
+def build(arg):
+    return A if arg == "a" else B
+"""
+
+# two designs derived from one base class that declares the ports (output with a default); design A connects the
+# inherited output to a sub-entity whose Signal is initialised from its input port
+MODULES["base"] = HEADER + """
+class Sub(Entity):
+    a = Port.input(Bit)
+    y = Port.output(Bit)
+
+    def architecture(self):
+        s = Signal[Bit](self.a, name="s_init")
+
+        @std.concurrent
+        def logic():
+            self.y <<= self.a ^ s
+
+class Base(Entity):
+    a = Port.input(Bit)
+    r = Port.output(Bit, default=True)
+
+class A(Base):
+    def architecture(self):
+        Sub(a=self.a, y=self.r)
+
+class B(Base):
+    def architecture(self):
+        @std.sequential
+        def proc():
+            if self.a:
+                self.r <<= False
+
+def build(arg):
+    return A if arg == "a" else B
+"""
+
+# Signals initialised from the Python value of a port at elaboration time
+MODULES["portinit"] = HEADER + """
+class Sub(Entity):
+    a = Port.input(Bit)
+    y = Port.output(Bit)
+
+    def architecture(self):
+        s = Signal[Bit](self.a, name="s_init")
+
+        @std.concurrent
+        def logic():
+            self.y <<= self.a ^ s
+
+class T(Entity):
+    a = Port.input(Bit)
+    y = Port.output(Bit)
+    q = Port.output(Unsigned[2])
+    z = Port.output(Unsigned[2])
+
+    def architecture(self):
+        one = Signal[Bit](True, name="one")
+        Sub(a=one, y=self.y)
+        t = Signal[Unsigned[2]](self.q, name="t_init")
+
+        @std.concurrent
+        def logic():
+            self.q <<= 2
+            self.z <<= t
+
+def build(arg):
+    return T
+"""
+
 # names that collide (case-insensitively, with reserved words, with each other across scopes)
 MODULES["names"] = HEADER + """
 class T(Entity):
@@ -894,6 +1038,12 @@ LETTERS: dict[str, tuple] = {
     "libpath": ("libpath", None, "accept", "sub-entities with different attributes={'path': lib}, one extern: library clauses"),
     "types_asc": ("types_asc", None, "accept", "creates ascending vector types (BitVector[0:4], Unsigned[0:6], Signed[0:10], Array of [0:12]) inside the compilation"),
     "types_desc": ("types_desc", None, "accept", "creates the descending types of the same widths (BitVector[5], [4:0], Unsigned[7], Signed[11], Array, Record template arg 9) inside the compilation"),
+    "connector": ("connector", None, "accept", "std.OpenEntity / std.ConnectedEntity with 4-6 ports left open"),
+    "seqattrs_a": ("seqattrs", "a", "accept", "module-level attributes dict given to std.SequentialContext, one process @ctx(attributes={...})"),
+    "seqattrs_b": ("seqattrs", "b", "accept", "second design sharing the same module-level attributes dict"),
+    "base_a": ("base", "a", "accept", "derived from a shared base class declaring the ports; connects the inherited default=True output to a sub-entity"),
+    "base_b": ("base", "b", "accept", "other design derived from the same base class"),
+    "portinit": ("portinit", None, "accept", "Signals initialised from a port's Python value (sub-entity input, assigned output)"),
     "names": ("names", None, "accept", "colliding / reserved / case-different names"),
     "exitcoro": ("exitcoro", None, "accept", "sub-entities with coroutines + cohdl.always, cohdl.on_block_exit handlers"),
     "rej_dyn": ("dyn", "fail", "reject", "same class as dyn_a/dyn_b: adds a dynamic port, then architecture() raises"),
